@@ -212,10 +212,14 @@ func c07r2(c *core.Ctx) {
 		if f == nil || !core.InModule(f) || f.Blocks == nil || len(call.Call.Args) == 0 {
 			return false
 		}
-		okArg := false
+		okArg, viaConn := false, false
 		for _, a := range call.Call.Args {
 			if isRem(a) {
 				okArg = true
+			}
+			// the Connection itself is handed over and the helper loads the remainder field from it (a method "con.drained()")
+			if len(dr.Params) > 0 && core.TypeIs(a.Type(), tConn) && core.AllSources(a, func(s ssa.Value) bool { return s == ssa.Value(dr.Params[0]) }) {
+				okArg, viaConn = true, true
 			}
 		}
 		if !okArg {
@@ -225,8 +229,14 @@ func c07r2(c *core.Ctx) {
 		good, n := true, 0
 		ofParam := func(x ssa.Value) bool {
 			return core.AnySource(x, func(s ssa.Value) bool {
-				if _, ok := s.(*ssa.Parameter); ok {
-					return true
+				if pp, ok := s.(*ssa.Parameter); ok {
+					return !core.TypeIs(pp.Type(), tConn)
+				}
+				if viaConn {
+					if base, ok := core.FieldLoad(s, tConn, remField); ok {
+						_, isParam := base.(*ssa.Parameter)
+						return isParam
+					}
 				}
 				if e, ok := s.(*ssa.Extract); ok {
 					if ta, ok := e.Tuple.(*ssa.TypeAssert); ok {
